@@ -5,7 +5,7 @@
    A handler result is
        [outs  |-> << [id |-> .., corr |-> ..], .. >>,
         err   |-> "nil" | "e1" | "we1" (e1 wrapped) | "e2" | "panic:<kind>",
-        panic |-> "none" | "value" | "error" | "nil"]
+        panic |-> "none" | "value" | "error" | "nil" | "slice" (a value of an uncomparable type)]
    The state of the consumed message threaded through a call is
        [k      : index of the next scripted handler result,
         ctx    : "live" | "cancelled"      what msg.Context().Err() shows,
